@@ -182,6 +182,8 @@ func (k Keeper) DeleteMeta(ctx sdk.Context, dataId string) error {
 	key := fmt.Sprintf("%s-%s-%s", metadata.Owner, metadata.Alias, metadata.GroupId)
 	k.RemoveMetadata(ctx, dataId)
 	k.RemoveModel(ctx, key)
+	// a deleted model must not stay scheduled: the data id may be created again
+	k.removeDataExpireBlock(ctx, dataId, metadata.CreatedAt+metadata.Duration)
 
 	return nil
 }
@@ -301,6 +303,7 @@ func (k Keeper) RollbackMeta(ctx sdk.Context, dataId string) {
 
 		key := fmt.Sprintf("%s-%s-%s", metadata.Owner, metadata.Alias, metadata.GroupId)
 		k.RemoveModel(ctx, key)
+		k.removeDataExpireBlock(ctx, dataId, metadata.CreatedAt+metadata.Duration)
 		return
 	}
 
